@@ -20,6 +20,10 @@ SETS_QUICK = [
     (["x", "X", "xx"], [None, "ns2", "NS"]),
 ]
 SETS_QUICK.append((["urn:caf\u00e9.1", "urn:cafe\u0301.1", "\u212bx"], [None, "f\u00e9", "fe\u0301"]))   # Unicode normalisation forms
+# identifiers spelled like the paths of existing files, two of which hold the same bytes (see args_for: the first
+# content and the first metadata document of this universe are equal)
+PATHLIKE = (["src/c0", "src/d0", "src/../src/c1"], [None, "src/d0"])
+SETS_QUICK.append(PATHLIKE)
 SETS_THOROUGH = SETS_QUICK + [
     (["a", "ab", "b", "ba"], [None, "c", "bc", "cb"]),
     (["/etc/passwd", "..", "."], [None, "/", ".."]),
@@ -68,11 +72,20 @@ def main(tier, replay_payload=None):
 
     def args_for(n):
         pids, fmts = sets[n]
-        return dict(pids=pids, contents=[b"shared", b"0123456789ab"], formats=fmts, sym_dirs=False)
+        a = dict(pids=pids, contents=[b"shared", C_MULTI], formats=fmts, sym_dirs=False)
+        if sets[n] is PATHLIKE:
+            a["docs"] = (b"shared", D_MULTI)
+        return a
+
+    def files_for(n):
+        a = args_for(n)
+        out = {"src/c%d" % k: c for k, c in enumerate(a["contents"])}
+        out.update({"src/d%d" % v: d for v, d in enumerate(a.get("docs", (D_ONE, D_MULTI)))})
+        return out
 
     def replayer(payload):
         if payload.get("harness") == "alias":
-            return alias_native(payload["what"])
+            return alias_native(payload["what"], files_for(payload.get("set", 0)))
         return make_replayer(args_for(payload.get("set", 0)), menu_fn, kf)(payload)
     if replay_payload is not None:
         return replayer(replay_payload)
